@@ -16,21 +16,33 @@ Proof. exact range_canonical_proof. Qed.
    header's specs denote after clipping to the file. *)
 Theorem range_denotation : forall (header : list N) (size : Z) (l : list (Z * Z)),
   parse_range header size = Ranges l ->
-  exists specs, header_specs header = Some specs /\
+  exists specs, header_specs header size = Some specs /\
     forall p, (exists r, In r l /\ fst r <= p < snd r) <->
               (exists s, In s specs /\ denotes size s p).
 Proof. exact range_denotation_proof. Qed.
 
-(* Classification: 416 iff some spec starts at/after the end or is a zero/over-long
+(* The specs of a header (header_specs) are now defined for EVERY header that starts with
+   "bytes=": a number of more digits than int() accepts stands for a position beyond the
+   end of the file (size + 1), which is what it denotes for every real file size.
+   Classification: 416 iff some spec starts at/after the end or is a zero/over-long
    suffix; otherwise 400 iff there is no spec or some first > last; otherwise ranges. *)
 Theorem range_classification : forall (header : list N) (size : Z) (specs : list spec),
-  header_specs header = Some specs ->
+  0 <= size ->
+  header_specs header size = Some specs ->
   (parse_range header size = Unsatisfiable <-> Exists (unsat size) specs) /\
   (parse_range header size = Malformed <->
      specs = [] \/ (~ Exists (unsat size) specs /\ Exists inverted specs)) /\
   ((exists l, parse_range header size = Ranges l) <->
      specs <> [] /\ ~ Exists (unsat size) specs /\ ~ Exists inverted specs).
 Proof. exact range_classification_proof. Qed.
+
+(* What a run of digits stands for: its value — whatever its leading zeros — as long as
+   int() accepts the rest (at most 4300 digits); a longer one stands for a position beyond
+   the end of the file (for every real file size that is what it denotes). *)
+Theorem number_meaning : forall (size : Z) (s : list N),
+  (too_long (strip_zeros s) = false -> number size s = digits_val s) /\
+  (too_long (strip_zeros s) = true -> number size s = size + 1).
+Proof. exact (fun size s => conj (number_denotes_proof size s) (number_beyond_proof size s)). Qed.
 
 (* The merge loop as it was before the repair does not satisfy range_canonical. *)
 Theorem merge_orig_refuted :
@@ -41,3 +53,4 @@ Print Assumptions range_canonical.
 Print Assumptions range_denotation.
 Print Assumptions range_classification.
 Print Assumptions merge_orig_refuted.
+Print Assumptions number_meaning.
